@@ -83,25 +83,20 @@ theorem tok_ident {n rest : Bytes} (hn : identOk n = true) (hk : notKeyword n = 
     simpa [notKeyword] using hk
   exact .word c r .tIdent rest hc hr' hr (Or.inr ⟨this, rfl⟩)
 
-theorem tok_dollar {k rest : Bytes} (hk : identOk k = true) (hr : WordEnd rest) :
+theorem tok_dollar {k rest : Bytes} (hk : varOk k = true) (hr : WordEnd rest) :
     TokOk ⟨.tDollarIdent, [36] ++ k⟩ rest := by
-  obtain ⟨c, r, rfl, hc, hr'⟩ := identOk_parts hk
-  exact .dollar c r rest hc hr' hr
+  obtain ⟨c, r, rfl, hk', hl⟩ := varOk_parts hk
+  exact .dollar c r rest hk' hl hr
 
-theorem tok_key (ns : Bool) {k rest : Bytes} (hk : identOk k = true) (hr : WordEnd rest) :
+theorem tok_key (ns : Bool) {k rest : Bytes} (hk : keyOk k = true) (hr : WordEnd rest) :
     TokOk (if ns then ⟨.tQuestionDotIdent, [63, 46] ++ k⟩ else ⟨.tDotIdent, [46] ++ k⟩) rest := by
-  obtain ⟨c, r, rfl, hc, hr'⟩ := identOk_parts hk
-  have hall : ∀ b ∈ c :: r, isIdChar b = true := by
-    intro b hb
-    rcases List.mem_cons.mp hb with rfl | hb
-    · exact idStart_idChar hc
-    · exact hr' b hb
+  obtain ⟨c, r, rfl, hc, hall⟩ := keyOk_parts hk
   cases ns
   · have := TokOk.dot c r rest hall hr
-    rw [idStart_notDig hc] at this
+    rw [hc] at this
     simpa using this
   · have := TokOk.qdot c r rest hall hr
-    rw [idStart_notDig hc] at this
+    rw [hc] at this
     simpa using this
 
 theorem tok_index (ns : Bool) {i : Int} {rest : Bytes} (hi : 0 ≤ i) (hr : WordEnd rest) :
@@ -109,10 +104,10 @@ theorem tok_index (ns : Bool) {i : Int} {rest : Bytes} (hi : 0 ≤ i) (hr : Word
   obtain ⟨c, k, hck, hc, hall⟩ := fmtInt_nonneg hi
   rw [hck]
   cases ns
-  · have := TokOk.dot c k rest hall hr
+  · have := TokOk.dot c k rest (alnumBytes_ascii hall) hr
     rw [hc] at this
     simpa using this
-  · have := TokOk.qdot c k rest hall hr
+  · have := TokOk.qdot c k rest (alnumBytes_ascii hall) hr
     rw [hc] at this
     simpa using this
 
